@@ -176,19 +176,22 @@ Definition seq_release (s : sh) : sh :=
 (* (b) wrapper layer: upstreamLimiter / FlowControlCache / localWrapper          *)
 (* =========================================================================== *)
 
-(* a local flow-control schema: exactly one of maxRequestsInflight{max} / tokenBucket{qps,burst} / exempt *)
-Inductive schema := SMif (mx : Z) | STb (qps burst : Z) | SExempt.
+(* a flow-control schema: exactly one of maxRequestsInflight{max} / tokenBucket{qps,burst} / exempt, plus its
+   limit Strategy [st] (0 = "", 1 = local, 2 = globalAllocate, 3 = globalCount).  The gateway runs with the
+   local limiter (rateLimiter "local"), so upstreamLimiter.Load serves the local wrapper whatever the strategy;
+   the strategy is part of localConfig (reflect.DeepEqual) and of nothing else in localWrapper.Sync. *)
+Inductive schema := SMif (mx : Z) (st : Z) | STb (qps burst : Z) (st : Z) | SExempt (st : Z).
 Inductive kind := KMif | KTb | KExempt.
 
 Definition kind_of (s : schema) : kind :=
-  match s with SMif _ => KMif | STb _ _ => KTb | SExempt => KExempt end.
+  match s with SMif _ _ => KMif | STb _ _ _ => KTb | SExempt _ => KExempt end.
 Definition kind_eqb (a b : kind) : bool :=
   match a, b with KMif, KMif | KTb, KTb | KExempt, KExempt => true | _, _ => false end.
 Definition schema_eqb (a b : schema) : bool :=
   match a, b with
-  | SMif x, SMif y => x =? y
-  | STb q b1, STb q' b2 => (q =? q') && (b1 =? b2)
-  | SExempt, SExempt => true
+  | SMif x s1, SMif y s2 => (x =? y) && (s1 =? s2)
+  | STb q b1 s1, STb q' b2 s2 => (q =? q') && (b1 =? b2) && (s1 =? s2)
+  | SExempt s1, SExempt s2 => s1 =? s2
   | _, _ => false
   end.
 
@@ -220,7 +223,7 @@ Definition set_cache (w : world) (c n : string) (v : option cache) : world :=
 (* flowcontrol.NewFlowControl(schema) wrapped by newMeterFlowControl: a new object *)
 Definition new_obj (s : schema) (gen : Z) : cache :=
   {| ccfg := s; ckind := kind_of s;
-     cst := {| count := 0; max := match s with SMif m => wrapu32 m | _ => 0 end |};
+     cst := {| count := 0; max := match s with SMif m _ => wrapu32 m | _ => 0 end |};
      cgen := gen |}.
 
 (* localWrapper.Sync(schema) on the cache of (c, n) *)
@@ -237,7 +240,8 @@ Definition local_sync (w : world) (c n : string) (s : schema) : world :=
         {| specs := specs w1; caches := caches w1; nextgen := nextgen w + 1; reqs := reqs w1 |}
       else
         match s with
-        | SMif m =>    (* flowControl.Resize: if f.max != n { TokenBucket.Resize(n); f.max = n } *)
+        | SMif m _ =>  (* same type (also when only the Strategy differs): the limiter object stays;
+                          flowControl.Resize: if f.max != n { TokenBucket.Resize(n); f.max = n } *)
             set_cache w c n (Some {| ccfg := s; ckind := ckind ca;
                                      cst := set_max (cst ca) (wrapu32 m); cgen := cgen ca |})
         | _ =>         (* token bucket: new inner rate limiter, same object; exempt: nothing *)
